@@ -150,7 +150,7 @@ fn random_content(rng: &mut Rng) -> String {
 }
 
 pub fn jobs(ctx: &Ctx) -> Vec<Prog> {
-    let n = ctx.tier.pick(5_000, ctx.scale(150_000));
+    let n = ctx.tier.pick(12_000, ctx.scale(600_000));
     let mut out = Vec::with_capacity(n);
     for k in 0..n {
         let mut rng = Rng::new(mix(ctx.seed, k as u64 ^ 0xc17));
